@@ -465,6 +465,12 @@ def verify_seen_cut(fx, cg, comp):
         )
         if x is None or not inserted:
             return False, "the item tested with contains() is not the item inserted into the seen set", {"function": name}
+        # the set only grows while the conversion runs: taking an item out again (a path-scoped cut) still ends every cycle, but a
+        # type shared between several positions of its parent is then converted once per occurrence - time and memory
+        # exponential in the nesting depth
+        shrinks = [c["method"] for c, _ in F.walk(root) if c.get("k") == "MethodCall" and c.get("method") in ("remove", "clear", "retain", "drain", "take", "pop") and F.local_of(F.strip(c["recv"])) == seen]
+        if shrinks:
+            return False, f"the seen set is also shrunk (`{shrinks[0]}`): the cut becomes path-scoped and shared sub-types are converted once per occurrence (exponential in the nesting depth)", {"function": name}
         # the enum of x: from the match on x in this function
         adt = None
         for m, _ in F.exprs(root, "Match"):
